@@ -111,6 +111,22 @@ Check real_axis_ln_sqrt : forall x : R,
 Example real_axis_ln_sqrt_nonvacuous : 0 < 2 /\ -4 < 0.
 Proof. lra. Qed.
 
+(* the inverse functions on the real axis, inside the real domain of the real inverse (asin, acos, arcsinh are the
+   standard library's; atanh / acosh have no standard-library counterpart and are stated by their logarithm forms) *)
+Theorem real_axis_inverse : forall x : R,
+  catan (x, 0) = (atan x, 0) /\ casinh (x, 0) = (arcsinh x, 0) /\
+  (-1 < x < 1 -> casin (x, 0) = (asin x, 0) /\ cacos (x, 0) = (acos x, 0) /\
+                 catanh (x, 0) = ((ln (1 + x) - ln (1 - x)) / 2, 0)) /\
+  (1 <= x -> cacosh (x, 0) = (ln (x + sqrt (x - 1) * sqrt (x + 1)), 0)).
+Proof. intros x. exact (conj (catan_real x) (conj (casinh_real x) (conj (fun H => conj (casin_real x H) (conj (cacos_real x H) (catanh_real x H))) (cacosh_real x)))). Qed.
+Check real_axis_inverse : forall x : R,
+  catan (x, 0) = (atan x, 0) /\ casinh (x, 0) = (arcsinh x, 0) /\
+  (-1 < x < 1 -> casin (x, 0) = (asin x, 0) /\ cacos (x, 0) = (acos x, 0) /\
+                 catanh (x, 0) = ((ln (1 + x) - ln (1 - x)) / 2, 0)) /\
+  (1 <= x -> cacosh (x, 0) = (ln (x + sqrt (x - 1) * sqrt (x + 1)), 0)).
+Example real_axis_inverse_nonvacuous : -1 < 1 / 2 < 1 /\ 1 <= 2.
+Proof. lra. Qed.
+
 (* ---- reciprocal functions are reciprocals (sec, csc, cot, sech, csch, coth are cone / f in the model as in the source);
         tan, tanh are the quotients ---- *)
 Theorem reciprocals : forall z : C,
@@ -195,6 +211,7 @@ Print Assumptions exponential_forms.
 Print Assumptions pythagoras.
 Print Assumptions real_axis_direct.
 Print Assumptions real_axis_ln_sqrt.
+Print Assumptions real_axis_inverse.
 Print Assumptions reciprocals.
 Print Assumptions sin_asin.
 Print Assumptions cos_acos.
